@@ -417,6 +417,40 @@ def excise_range(text: str, start: str, last: str, replacement: str, report: Dro
     return fr.apply()
 
 
+def mut_self_to_local(text: str, name: str, report: DropReport, item: str) -> str:
+    """W8b: Verus has no `mut self` parameter: `fn f(mut self, ..) { B }` -> `fn f(self, ..) { let mut NAME = self; B[self := NAME] }`
+    (binding a by-value parameter mutably is a local rebinding)."""
+    fr = R.Frag(text)
+    ct = fr.ct
+    i = next((k for k, t in enumerate(ct) if t.text == "fn"), None)
+    if i is None:
+        return text
+    k = i
+    while ct[k].text != "(":
+        k += 1
+    e = R.match_close(ct, k)
+    hit = None
+    for j in range(k, e):
+        if ct[j].text == "mut" and ct[j + 1].text == "self":
+            hit = j
+            break
+    if hit is None:
+        raise ExtractError(f"{item}: no `mut self` parameter")
+    fr.replace(ct[hit].start, ct[hit + 1].start, "")
+    b = e
+    while ct[b].text != "{":
+        if ct[b].text in R.OPEN:
+            b = R.match_close(ct, b)
+        b += 1
+    bc = R.match_close(ct, b)
+    for j in range(b + 1, bc):
+        if ct[j].kind == "ident" and ct[j].text == "self":
+            fr.replace(ct[j].start, ct[j].end, name)
+    fr.insert(ct[b].end, f" let mut {name} = self;")
+    report.add("W8b", item, f"`mut self` -> `self` + `let mut {name} = self;`, `self` renamed `{name}` in the body")
+    return fr.apply()
+
+
 def for_to_while(text: str, anchor: str, itname: str, report: DropReport, item: str) -> str:
     """W14: `for PAT in &EXPR {` -> `let mut IT = EXPR.iter(); while let Some(PAT) = IT.next() {` -- the language's own
     desugaring of a `for` over `&Vec<T>` / `&[T]` (IntoIterator for &Vec<T> is `.iter()`).  Needed where the body uses
@@ -821,6 +855,8 @@ class Unit:
                 text = drop_cfg_gated(text, icfg["drop_cfg_features"], self.report, itemname)
             for ex in icfg.get("excise", []):
                 text = excise_match(text, ex["scrutinee"], ex["replace"], self.report, itemname)
+            if icfg.get("mut_self_to"):
+                text = mut_self_to_local(text, icfg["mut_self_to"], self.report, itemname)
             for fw in icfg.get("for_to_while", []):
                 text = for_to_while(text, fw["anchor"], fw["iter"], self.report, itemname)
             for ex in icfg.get("excise_range", []):
